@@ -71,6 +71,16 @@ def main(prop, tier="quick", seed=0, replay=None, only=None, jobs=None):
     t0 = time.time()
     os.environ["VERIF_TIER_EFFECTIVE"] = tier
     cfgs = mod.configs(tier)
+    if tier == "quick":
+        # configurations registered as thorough-only that cost a few seconds are run in quick as well (fsmc/quick_promote.json, generated
+        # from the timings of a thorough sweep): the menus of the two tiers differ in cost, not in kind
+        try:
+            promote = set(json.load(open(os.path.join(VERIF, "fsmc", "quick_promote.json"))).get(prop, []))
+        except (OSError, ValueError):
+            promote = set()
+        if promote:
+            have = {str(c[0]) for c in cfgs}
+            cfgs = cfgs + [c for c in mod.configs("thorough") if str(c[0]) in promote and str(c[0]) not in have]
     if only:
         cfgs = [c for c in cfgs if re.search(only, str(c[0]))]
     # seed permutes the order of configurations only (and, inside the explorer, of environment choices)
